@@ -365,7 +365,18 @@ func genUpdateHistory(e *Env, r *Rng, idx int) {
 			} else {
 				ph = mkH(sim.Rev, uint64(latest+int64(r.Intn(3))))
 			}
-			e.Membership(cid, r.Bool(), ph, uint64(r.Intn(2))*uint64(r.Intn(20)), uint64(r.Intn(2))*uint64(r.Intn(5)))
+			dT, dB := uint64(r.Intn(2))*uint64(r.Intn(20)), uint64(r.Intn(2))*uint64(r.Intn(5))
+			switch r.Intn(8) {
+			case 0: // sums that wrap around 2^64 must never pass
+				dT = ^uint64(0) - uint64(r.Intn(3))
+			case 1:
+				dB = ^uint64(0) - uint64(r.Intn(60))
+			case 2: // exactly at / one below the processed time boundary
+				if pt, ok := ibctm.GetProcessedTime(e.Store(cid), ph); ok && uint64(e.Now.UnixNano()) >= pt {
+					dT = uint64(e.Now.UnixNano()) - pt + uint64(r.Intn(2))
+				}
+			}
+			e.Membership(cid, r.Bool(), ph, dT, dB)
 		default:
 			e.Do(M{"f": "pruneAll", "cid": cid})
 		}
